@@ -19,6 +19,8 @@ FUNCTIONS['rewrite'] = ['LNot'] + ['%s.get_equivalent_restricted_formula' % c fo
                                    ('AtomicProposition', 'Not', 'A', 'E', 'X', 'F', 'G', 'Or', 'And', 'Imply', 'U', 'R')]
 FUNCTIONS['bdd'] = ['find_isomorph', 'BDDNode.__reset__', 'BDDNonTerminalNode.__reset__', 'BDDNonTerminalNode.__new__']
 PROPERTY_FUNCTIONS = {
+    'C02': ['LTL.modelcheck', 'LNot', 'Not.get_equivalent_restricted_formula'],
+    'C03': ['_get_a_new_atomic_proposition_for', 'Kripke.labels'],
     'C16': FUNCTIONS['bdd'],
     'C05': FUNCTIONS['rewrite'],
     # own functions + the callee contracts the labelling relies on directly (their owners C13/C14 verify the rest)
@@ -53,6 +55,12 @@ TRUSTED = {
             'TB8 (Bryant canonicity): "no two registered non-terminals share (var, low, high)" + reducedness + orderedness imply "equal function iff same root"; not proved here',
             'object.__new__(cls) returns a new object of the non-terminal class, registered nowhere',
             'BDDTerminalNode.__new__, apply/restrict/invert (C17) are not under proof: bounded only'],
+    'C02': ['only the wrapper LTL.modelcheck (object formula A g, F=None) is under proof: result = states all of whose paths satisfy g, GIVEN the assumed '
+            'contract of _checkE_path_formula (result = states with some path satisfying the restricted formula) and the proved contracts of LNot / rewriting; '
+            'the tableau (_get_closure, _build_atoms, _Tableu, _is_non_trivial_self_fulfilling) and TB9 are not within deductive reach: bounded only',
+            'documented path semantics as axioms (vf/pyvc/formula_sem.py)'],
+    'C03': ['only the fresh-label helper _get_a_new_atomic_proposition_for is under proof (the label is not a label of K; termination not claimed; '
+            'it may still collide with an atom of the formula, KF-C19-2); _remove_state_subformulas/_checkQuantifiedFormula/modelcheck: bounded only'],
     'C07': ['frame obligations cover the CTL labelling functions proved so far; LTL/CTL* call graphs bounded only'],
     'C19': ['safety obligations cover the CTL labelling functions proved so far; LTL/CTL* call graphs bounded only'],
 }
@@ -73,6 +81,9 @@ def build_engine(repo=None, timeout_ms=20000, seed=0):
     for modname in ('contracts_kripke', 'contracts_ctl', 'formula_sem', 'contracts_bdd'):
         mod = __import__('vf.pyvc.' + modname, fromlist=['install'])
         mod.install(E)
+    from . import contracts_ctl, formula_sem
+    contracts_ctl.install_ctls(E)
+    formula_sem.install_ltl(E)
     return E
 
 
